@@ -789,6 +789,8 @@ impl TryFrom<&[u8]> for AdcV3Packet {
                 min_expected: waveform_bytes + 37,
             });
         }
+        // `requested_samples` comes from the wire and can be less than 2.
+        let max_samples = requested_samples.saturating_sub(2);
         let waveform: Vec<i16> = slice[32..][..waveform_bytes]
             .chunks_exact(2)
             .map(|b| i16::from_be_bytes(b.try_into().unwrap()))
@@ -798,7 +800,7 @@ impl TryFrom<&[u8]> for AdcV3Packet {
             return Err(Self::Error::BadNumberOfSamples {
                 found: waveform.len(),
                 min: BASELINE_SAMPLES,
-                max: requested_samples - 2,
+                max: max_samples,
             });
         }
         let data_baseline = {
@@ -836,14 +838,14 @@ impl TryFrom<&[u8]> for AdcV3Packet {
                 return Err(Self::Error::BadNumberOfSamples {
                     found: waveform.len(),
                     min: last_index + 1,
-                    max: requested_samples - 2,
+                    max: max_samples,
                 });
             }
-            if waveform.len() > requested_samples - 2 {
+            if waveform.len() > max_samples {
                 return Err(Self::Error::BadNumberOfSamples {
                     found: waveform.len(),
                     min: last_index + 1,
-                    max: requested_samples - 2,
+                    max: max_samples,
                 });
             }
         } else {
@@ -859,7 +861,7 @@ impl TryFrom<&[u8]> for AdcV3Packet {
                     return Err(Self::Error::BadNumberOfSamples {
                         found: waveform.len(),
                         min: last_index + 1,
-                        max: requested_samples - 2,
+                        max: max_samples,
                     });
                 }
             } else if keep_last != 0 {
@@ -868,11 +870,11 @@ impl TryFrom<&[u8]> for AdcV3Packet {
                     limit: 0,
                 });
             }
-            if waveform.len() != requested_samples - 2 {
+            if waveform.len() != max_samples {
                 return Err(Self::Error::BadNumberOfSamples {
                     found: waveform.len(),
-                    min: requested_samples - 2,
-                    max: requested_samples - 2,
+                    min: max_samples,
+                    max: max_samples,
                 });
             }
         }
